@@ -437,7 +437,10 @@ static void prof_lineindep(vh_rng_t *r, const vh_args_t *a)
     case LT_ENV_WHOLE: {
       /* a variable that is set but carries nothing vs. the variable not set at all */
       static const char *const ro[] = { "", " ", "\t ", "  " };
-      static const char *const ld[] = { "", " ", ",", ", ," };
+      /* ... or carries something that is no domain list (a tab, an accented letter, a control byte): whatever the
+       * library makes of the search list then, the rest of the configuration is not this variable's business */
+      static const char *const ld[] = { "", " ", ",", ", ,", "corp.example\tlab.example", "caf\xc3\xa9.example", "corp.example\x01",
+                                        "\x7f" };
       cfg_sys_set_env(&F, CE_LOCALDOMAIN, NULL);
       cfg_sys_set_env(&G, CE_LOCALDOMAIN, NULL);
       if (vh_chance(r, 1, 2)) {
@@ -449,8 +452,8 @@ static void prof_lineindep(vh_rng_t *r, const vh_args_t *a)
       } else {
         const char *v = PICK(r, ld);
         cfg_sys_set_env(&G, CE_LOCALDOMAIN, v);
-        clsname = v[0] ? "LOCALDOMAIN-separators-only" : "LOCALDOMAIN-empty";
-        cls     = v[0] ? 3 : 2;
+        clsname = !v[0] ? "LOCALDOMAIN-empty" : strlen(v) <= 3 && v[0] != 0x7f ? "LOCALDOMAIN-separators-only" : "LOCALDOMAIN-unprintable";
+        cls     = !v[0] ? 2 : strlen(v) <= 3 && v[0] != 0x7f ? 3 : 4;
         /* whether an empty LOCALDOMAIN clears the search list is not specified anywhere:
          * only the rest of the configuration must be untouched */
         skip = skip_domains;
